@@ -5,7 +5,7 @@ for D in seeded/${1:-C*}; do
   [ -f "$D/patch.diff" ] || continue
   P=$(python3 -c "import json;print(json.load(open('$D/meta.json'))['property'])")
   A=$(python3 -c "import json;print(json.load(open('$D/meta.json'))['applies_to'][:12])")
-  if [[ "$A" == 971cc91* ]]; then echo "$D  base-only (neutralised on HEAD)"; continue; fi
+  if [[ "$A" == 971cc91* || "$A" == cdc9716\ only* ]]; then echo "$D  base-only (neutralised on HEAD)"; continue; fi
   OUT=$(tools/try_patch.sh "$D/patch.diff" --demo "$D/demo.py" $P 2>&1)
   echo "$D  $(echo "$OUT" | grep -o 'demo on changed tree: exit [0-9]') | $(echo "$OUT" | grep '^== ' | tr '\n' ' ')"
 done
